@@ -51,8 +51,61 @@ class C16(Prop):
     )
     budgets = {"quick": 300, "thorough": 6000}
 
+    @staticmethod
+    def _forced_cases(rng: random.Random) -> Iterable[dict]:
+        """Shapes every run visits whatever the seed: a pause under a run-time selection, a selected ordering signal, a selected output whose
+        value is None, an entry point downstream of a signal emitter."""
+        fn = gen._fn_node
+        # (a) a pausing interrupt while a run-time selection (different from the default) is in force
+        for _ in range(3):
+            c = gen.gen_interrupt(rng)
+            program = copy.deepcopy(c["program"])
+            outs = list(dict.fromkeys(o for n in program[-1]["nodes"] for o in n.get("dataOuts", [])))
+            for n in program[-1]["nodes"]:
+                if n["kind"] == "interrupt":
+                    n["body"] = {"b": "handler", "k": None}      # pauses
+                    break
+            cfg = {"select": rng.sample(outs, rng.randint(1, min(2, len(outs)))), "selectAsTuple": False, "selectAsSet": False, "selectAs": None,
+                   "onMissing": "ignore", "errMode": rng.choice(["raise", "continue"]), "maxIter": 40}
+            if rng.random() < 0.5 and len(outs) > 1:
+                program[-1]["selected"] = [o for o in outs if o not in cfg["select"]][:1] or outs[:1]
+            yield {"program": program, "known": c["values"], "cfg": cfg, "runner": "async", "ops": {"rtselect": 1, "forced": 1}}
+        # (b) an ordering signal selected next to (or instead of) data outputs, under every on_missing policy
+        for om in ("warn", "error", "ignore"):
+            nodes = [fn("a", [["x", None]], ["va"], {"b": "sum", "k": 1}, emits=["sig"]), fn("b", [["va", None]], ["vb"], {"b": "tag", "t": "b"}, waitFor=["sig"])]
+            rng.shuffle(nodes)
+            sel = rng.choice([["vb", "sig"], ["sig", "va"], ["sig"]])
+            cfg = {"select": sel, "selectAsTuple": rng.random() < 0.5, "selectAsSet": False, "selectAs": None, "onMissing": om, "errMode": "raise", "maxIter": 40}
+            for runner in ("sync", "async"):
+                yield {"program": [{"name": "g0", "nodes": nodes, "bound": []}], "known": [["x", 2]], "cfg": cfg, "runner": runner, "ops": {"rtselect": 1, "forced": 1}}
+        # (c) a selected output whose produced value is None (produced, not missing), run-time or default selection
+        for om in ("warn", "error"):
+            nodes = [fn("a", [["x", None]], ["va"], {"b": "const", "v": None}), fn("b", [["x", None]], ["vb"], {"b": "sum", "k": 1})]
+            rng.shuffle(nodes)
+            g = {"name": "g0", "nodes": nodes, "bound": []}
+            cfg = {"onMissing": om, "errMode": "raise", "maxIter": 40}
+            if rng.random() < 0.5:
+                g["selected"] = ["va"]
+            else:
+                cfg.update(select=rng.choice([["va"], ["va", "vb"]]), selectAsTuple=False, selectAsSet=False, selectAs=None)
+            for runner in ("sync", "async"):
+                yield {"program": [g], "known": [["x", 2]], "cfg": cfg, "runner": runner, "ops": {"select": 1, "forced": 1}}
+        # (d) an entry point at a node that waits for a signal emitted UPSTREAM of it: the emitter is outside the scope and never runs
+        for _ in range(2):
+            nodes = [fn("warm", [["c", None]], ["w"], {"b": "tag", "t": "warm"}, emits=["ready"]),
+                     fn("work", [["v", None]], ["o"], {"b": "sum", "k": 1}, waitFor=["ready"]),
+                     fn("after", [["o", None]], ["oo"], {"b": "tag", "t": "after"})]
+            if rng.random() < 0.5:
+                nodes.append(fn("side", [["w", None]], ["ws"], {"b": "tag", "t": "side"}))
+            rng.shuffle(nodes)
+            g = {"name": "g0", "nodes": nodes, "bound": [], "entrypoints": [rng.choice(["work", "work", "after"])]}
+            cfg = {"onMissing": "ignore", "errMode": "raise", "maxIter": 40}
+            for runner in ("sync", "async"):
+                yield {"program": [g], "known": [["c", 1], ["v", 2], ["o", 5]], "cfg": cfg, "runner": runner, "ops": {"entrypoints": 1, "forced": 1}}
+
     def cases(self, rng: random.Random, tier: str) -> Iterable[dict]:
         forced = 3
+        yield from self._forced_cases(rng)
         while True:
             if forced or rng.random() < 0.05:
                 forced = max(0, forced - 1)
